@@ -50,17 +50,108 @@ func verifResolutionRound(r *Resolution) *Resolution {
 //@ ensures[C17.copyinstr.fresh] fresh(result)
 //@ ensures[C17.copyinstr.eq] len(result) == len(src) && forall(k, 0, len(src), result[k] == src[k])
 
-// marshalConstant / unmarshalConstant go through encoding/json (assumed to round-trip the *Def structs); the
-// container functions keep length, order and nil-ness.
-//@ func marshalConstant
-//@ trusted
+// encoding/json is seen through uninterpreted functions (assumed contracts): json.Marshal(v) is a function
+// json.enc of the value; json.Unmarshal(data, &x) stores json.dec.<T>(data) for the struct type T of x. The
+// assumed round-trip facts (axioms json<T>): decoding what was encoded from a value of the SAME struct type gives
+// that value back, and reading only the "type" field (constantDef) of an encoded *ConstantDef gives its Type.
+// Nothing is assumed about decoding at a different type (that is where JSON is lossy: 2.0 is written as 2).
+//@ external encoding/json.Marshal
 //@ modifies nothing
-//@ ensures err == nil ==> result0 == uf("jsonOf", []byte, c)
+//@ ensures err == nil ==> result0 == uf("json.enc", []byte, v)
 
-//@ func unmarshalConstant
-//@ trusted
+//@ external encoding/json.Unmarshal
+//@ modifies *v.(*constantDef), *v.(*boolConstantDef), *v.(*intConstantDef), *v.(*floatConstantDef), *v.(*stringConstantDef), *v.(*functionConstantDef)
+//@ ensures typeof(v) == *constantDef ==> (result == nil) == uf("json.ok.type", bool, data) && (result == nil ==> *v.(*constantDef) == uf("json.dec.type", constantDef, data))
+//@ ensures typeof(v) == *boolConstantDef ==> (result == nil) == uf("json.ok.bool", bool, data) && (result == nil ==> *v.(*boolConstantDef) == uf("json.dec.bool", boolConstantDef, data))
+//@ ensures typeof(v) == *intConstantDef ==> (result == nil) == uf("json.ok.int", bool, data) && (result == nil ==> *v.(*intConstantDef) == uf("json.dec.int", intConstantDef, data))
+//@ ensures typeof(v) == *floatConstantDef ==> (result == nil) == uf("json.ok.float", bool, data) && (result == nil ==> *v.(*floatConstantDef) == uf("json.dec.float", floatConstantDef, data))
+//@ ensures typeof(v) == *functionConstantDef ==> (result == nil) == uf("json.ok.func", bool, data) && (result == nil ==> *v.(*functionConstantDef) == uf("json.dec.func", functionConstantDef, data))
+//@ ensures typeof(v) == *stringConstantDef ==> (result == nil) == uf("json.ok.string", bool, data) && (result == nil ==> *v.(*stringConstantDef) == uf("json.dec.string", stringConstantDef, data))
+
+//@ axiom jsonNil: forallA(x, constantDef, uf("json.dec.type", constantDef, uf("json.enc", []byte, any(x))) == x && uf("json.ok.type", bool, uf("json.enc", []byte, any(x))))
+//@ axiom jsonBool: forallA(x, boolConstantDef, uf("json.dec.bool", boolConstantDef, uf("json.enc", []byte, any(x))) == x && uf("json.ok.bool", bool, uf("json.enc", []byte, any(x))) && uf("json.ok.type", bool, uf("json.enc", []byte, any(x))) && uf("json.dec.type", constantDef, uf("json.enc", []byte, any(x))).Type == x.Type)
+//@ axiom jsonInt: forallA(x, intConstantDef, uf("json.dec.int", intConstantDef, uf("json.enc", []byte, any(x))) == x && uf("json.ok.int", bool, uf("json.enc", []byte, any(x))) && uf("json.ok.type", bool, uf("json.enc", []byte, any(x))) && uf("json.dec.type", constantDef, uf("json.enc", []byte, any(x))).Type == x.Type)
+//@ axiom jsonFloat: forallA(x, floatConstantDef, !isnan(x.Value) ==> (uf("json.dec.float", floatConstantDef, uf("json.enc", []byte, any(x))) == x && uf("json.ok.float", bool, uf("json.enc", []byte, any(x))) && uf("json.ok.type", bool, uf("json.enc", []byte, any(x))) && uf("json.dec.type", constantDef, uf("json.enc", []byte, any(x))).Type == x.Type))
+//@ axiom jsonString: forallA(x, stringConstantDef, uf("json.dec.string", stringConstantDef, uf("json.enc", []byte, any(x))) == x && uf("json.ok.string", bool, uf("json.enc", []byte, any(x))) && uf("json.ok.type", bool, uf("json.enc", []byte, any(x))) && uf("json.dec.type", constantDef, uf("json.enc", []byte, any(x))).Type == x.Type)
+//@ axiom jsonFunc: forallA(x, functionConstantDef, uf("json.ok.type", bool, uf("json.enc", []byte, any(x))) && uf("json.dec.type", constantDef, uf("json.enc", []byte, any(x))).Type == x.Type)
+
+//@ spec dtype(b) = uf("json.dec.type", constantDef, b).Type
+
+// marshalConstant: what the decoders will read back from the produced bytes, per constant type.
+//@ func marshalConstant
+//@ props C17
 //@ modifies nothing
-//@ ensures err == nil ==> result0 == uf("constOf", any, constant)
+//@ assume[consts.fn.nonnil] typeof(c) == *Function ==> ref(c) != nil
+//@ uses jsonNil jsonBool jsonInt jsonFloat jsonString jsonFunc
+//@ ensures[C17.const.m.nil] err == nil && c == nil ==> dtype(result0) == "nil"
+//@ ensures[C17.const.m.bool] err == nil && typeof(c) == bool ==> dtype(result0) == "bool" && uf("json.dec.bool", boolConstantDef, result0).Value == c.(bool)
+//@ ensures[C17.const.m.int] err == nil && typeof(c) == int ==> dtype(result0) == "int" && uf("json.dec.int", intConstantDef, result0).Value == int64(c.(int))
+//@ ensures[C17.const.m.int64] err == nil && typeof(c) == int64 ==> dtype(result0) == "int" && uf("json.dec.int", intConstantDef, result0).Value == c.(int64)
+//@ ensures[C17.const.m.float32] err == nil && typeof(c) == float32 && !isnan(float64(c.(float32))) ==> dtype(result0) == "float" && uf("json.dec.float", floatConstantDef, result0).Value == float64(c.(float32))
+//@ ensures[C17.const.m.float64] err == nil && typeof(c) == float64 && !isnan(c.(float64)) ==> dtype(result0) == "float" && uf("json.dec.float", floatConstantDef, result0).Value == c.(float64)
+//@ ensures[C17.const.m.string] err == nil && typeof(c) == string ==> dtype(result0) == "string" && uf("json.dec.string", stringConstantDef, result0).Value == c.(string)
+//@ ensures[C17.const.m.func] err == nil && typeof(c) == *Function ==> dtype(result0) == "function"
+//@ ensures[C17.const.m.ok.type] err == nil && !(typeof(c) == float64 && isnan(c.(float64))) && !(typeof(c) == float32 && isnan(float64(c.(float32)))) ==> uf("json.ok.type", bool, result0)
+//@ ensures[C17.const.m.ok.bool] err == nil && typeof(c) == bool ==> uf("json.ok.bool", bool, result0)
+//@ ensures[C17.const.m.ok.int] err == nil && oneof(typeof(c), int, int64) ==> uf("json.ok.int", bool, result0)
+//@ ensures[C17.const.m.ok.float64] err == nil && typeof(c) == float64 && !isnan(c.(float64)) ==> uf("json.ok.float", bool, result0)
+//@ ensures[C17.const.m.ok.float32] err == nil && typeof(c) == float32 && !isnan(float64(c.(float32))) ==> uf("json.ok.float", bool, result0)
+//@ ensures[C17.const.m.ok.string] err == nil && typeof(c) == string ==> uf("json.ok.string", bool, result0)
+//@ ensures[C17.const.m.reject] !oneof(typeof(c), bool, int, int64, float32, float64, string, *Function) && c != nil ==> err != nil
+//@ ghostensures err == nil ==> result0 == uf("jsonOf", []byte, c)
+
+// Round trip of one scalar constant through the real marshalConstant / unmarshalConstant (their proved contracts):
+// the reloaded constant has the normalised type (int -> int64, float32 -> float64) and the same value, and
+// unmarshalling what marshalConstant produced does not fail.
+func verifConstRound(c any) (any, bool, bool) {
+	data, err := marshalConstant(c)
+	if err != nil {
+		return nil, false, false
+	}
+	v, err := unmarshalConstant(data)
+	if err != nil {
+		return nil, true, false
+	}
+	return v, true, true
+}
+
+//@ func verifConstRound
+//@ props C17
+//@ results v mok uok
+//@ ensures[C17.round.nofail] mok && (c == nil || oneof(typeof(c), bool, int, int64, string) || (typeof(c) == float64 && !isnan(c.(float64))) || (typeof(c) == float32 && !isnan(float64(c.(float32))))) ==> uok
+//@ ensures[C17.round.nil] uok && c == nil ==> v == nil
+//@ ensures[C17.round.bool] uok && typeof(c) == bool ==> typeof(v) == bool && v.(bool) == c.(bool)
+//@ ensures[C17.round.int] uok && typeof(c) == int ==> typeof(v) == int64 && v.(int64) == int64(c.(int))
+//@ ensures[C17.round.int64] uok && typeof(c) == int64 ==> typeof(v) == int64 && v.(int64) == c.(int64)
+//@ ensures[C17.round.float32] uok && typeof(c) == float32 && !isnan(float64(c.(float32))) ==> typeof(v) == float64 && v.(float64) == float64(c.(float32))
+//@ ensures[C17.round.float64] uok && typeof(c) == float64 && !isnan(c.(float64)) ==> typeof(v) == float64 && v.(float64) == c.(float64)
+//@ ensures[C17.round.string] uok && typeof(c) == string ==> typeof(v) == string && v.(string) == c.(string)
+
+// definitionFromFunction: id, name, parameter names (fresh copy) and the defaults marshalled one by one.
+//@ func definitionFromFunction
+//@ props C17
+//@ requires function != nil
+//@ modifies nothing
+//@ ensures[C17.fn.def] err == nil ==> result0 != nil && fresh(result0) && result0.ID == function.id && result0.Name == function.name && len(result0.Parameters) == len(function.parameters) && forall(k, 0, len(function.parameters), result0.Parameters[k] == function.parameters[k]) && (function.defaults == nil ==> result0.Defaults == nil) && (function.defaults != nil ==> len(result0.Defaults) == len(function.defaults) && forall(k, 0, len(function.defaults), result0.Defaults[k] == uf("jsonOf", []byte, function.defaults[k])))
+//@ ensures[C17.fn.def.err] err != nil ==> result0 == nil
+
+// unmarshalConstant: dispatches on the "type" field and returns the Value of the matching struct.
+//@ func unmarshalConstant
+//@ props C17
+//@ safety
+//@ modifies nothing
+//@ let fdef = uf("json.dec.func", functionConstantDef, constant).Value
+//@ assume[json.func.value] fdef != nil
+//@ ensures[C17.const.u.nil] err == nil && dtype(constant) == "nil" ==> result0 == nil
+//@ ensures[C17.const.u.bool] err == nil && dtype(constant) == "bool" ==> typeof(result0) == bool && result0.(bool) == uf("json.dec.bool", boolConstantDef, constant).Value
+//@ ensures[C17.const.u.int] err == nil && dtype(constant) == "int" ==> typeof(result0) == int64 && result0.(int64) == uf("json.dec.int", intConstantDef, constant).Value
+//@ ensures[C17.const.u.float] err == nil && dtype(constant) == "float" ==> typeof(result0) == float64 && (result0.(float64) == uf("json.dec.float", floatConstantDef, constant).Value || isnan(uf("json.dec.float", floatConstantDef, constant).Value))
+//@ ensures[C17.const.u.string] err == nil && dtype(constant) == "string" ==> typeof(result0) == string && result0.(string) == uf("json.dec.string", stringConstantDef, constant).Value
+//@ ensures[C17.const.u.func] err == nil && dtype(constant) == "function" ==> typeof(result0) == *Function
+//@ ensures[C17.const.u.ok] uf("json.ok.type", bool, constant) && ((dtype(constant) == "nil") || (dtype(constant) == "bool" && uf("json.ok.bool", bool, constant)) || (dtype(constant) == "int" && uf("json.ok.int", bool, constant)) || (dtype(constant) == "float" && uf("json.ok.float", bool, constant)) || (dtype(constant) == "string" && uf("json.ok.string", bool, constant))) ==> err == nil
+//@ ensures[C17.const.u.func.fields] err == nil && dtype(constant) == "function" ==> ref(result0) != nil && result0.(*Function).id == fdef.ID && result0.(*Function).name == fdef.Name && result0.(*Function).parameters == fdef.Parameters && (fdef.Defaults == nil ==> result0.(*Function).defaults == nil) && (fdef.Defaults != nil ==> len(result0.(*Function).defaults) == len(fdef.Defaults) && forall(k, 0, len(fdef.Defaults), result0.(*Function).defaults[k] == uf("constOf", any, fdef.Defaults[k])))
+//@ ensures[C17.const.u.reject] !oneof(dtype(constant), "nil", "bool", "int", "float", "string", "function") ==> err != nil
+//@ ghostensures err == nil ==> result0 == uf("constOf", any, constant)
 
 //@ func marshalConstants
 //@ props C17
